@@ -182,7 +182,10 @@ Qed.
 
 (* ---------- evaluation ---------- *)
 Definition bound (e : env) (s : segment) : Prop :=
-  match s with SExpr ex _ => lookup e ex <> None | _ => True end.
+  match s with
+  | SExpr ex sp => exists v, lookup e ex = Some v /\ spec_supported v (match sp with Some f => f | None => [] end) = true
+  | _ => True
+  end.
 
 Definition seg_out (e : env) (s : segment) : bytes :=
   seg_value (fun ex sp => match lookup e ex with
@@ -195,7 +198,7 @@ Proof.
   induction 1 as [|s l Hb _ IH]; [ reflexivity | ].
   destruct s as [t|ex sp|]; cbn [eval_segs map List.concat seg_out seg_value].
   - rewrite IH. reflexivity.
-  - cbn [bound] in Hb. destruct (lookup e ex); [ | congruence ]. rewrite IH. reflexivity.
+  - cbn [bound] in Hb. destruct Hb as (v & Hl & Hs). rewrite Hl, Hs, IH. reflexivity.
   - rewrite IH. reflexivity.
 Qed.
 
@@ -216,10 +219,11 @@ Qed.
 (* one interpolated expression between two plain texts: the texts come out byte-identical *)
 Theorem interp_text_untouched_l e t1 ex t2 v : plain_text t1 -> no_backslash t1 -> plain_text t2 -> no_braces ex ->
   lookup e (fst (split_colon ex)) = Some v ->
+  spec_supported v (match snd (split_colon ex) with Some f => f | None => [] end) = true ->
   eval_quoted e (t1 ++ "{" :: ex ++ "}" :: t2) =
   inl (t1 ++ format_value v (match snd (split_colon ex) with Some f => f | None => [] end) ++ t2).
 Proof.
-  intros H1 Hb H2 He Hl. unfold eval_quoted.
+  intros H1 Hb H2 He Hl Hsup. unfold eval_quoted.
   assert (Hflag : has_interpolation (t1 ++ "{" :: ex ++ "}" :: t2) = true).
   { clear Hl H2. induction H1 as [|c t (Ho & _ & _) _ IH].
     - cbn [app has_interpolation]. change (ceq "{" "\") with false. change (ceq "{" "{") with true. cbv iota.
@@ -237,5 +241,5 @@ Proof.
   rewrite Hnext. rewrite split_go_expr by exact He. cbn [app].
   rewrite <- (app_nil_r t2) at 1. rewrite split_go_plain by exact H2. cbn [app split_go].
   unfold mk_expr. destruct (split_colon ex) as [a o] eqn:Es. cbn [fst snd] in *.
-  destruct t1, t2; cbn [flush oseg eval_segs rbind app]; rewrite Hl; cbn [rbind]; rewrite ?app_nil_r; reflexivity.
+  destruct t1, t2; cbn [flush oseg eval_segs rbind app]; rewrite Hl, Hsup; cbn [rbind]; rewrite ?app_nil_r; reflexivity.
 Qed.
